@@ -46,10 +46,11 @@ def a1(ctx, rep):
             rep.check(whole and not iter_frames, 'A1', f"{f['name']}:whole-attribute-list", 'predicate evaluated on the node\'s complete attribute list', f"{f['qual']} evaluates accept_target_os on `{vt.show(c['args'][0])[:60]}`" + (' inside an iteration over the attributes' if iter_frames else '') + ' — several cfg attributes on one node must be judged jointly (one positive OS list across all of them), as at file and type level', site)
     rep.floor('A1', 'accept_target_os call sites', n, 2)
     # wrapper used by the visitor
-    w = ctx.fn('TypeShareVisitor::target_os_accepted', file='visitors.rs')
-    t = vt.strip(w['tail'])
-    ok = isinstance(t, dict) and t.get('f') == 'accept_target_os' and vt.show(vt.strip(t['args'][0])) == w['params'][1]['name'] and vt.show(vt.strip(t['args'][1])) == 'self.parse_context.target_os'
-    rep.check(ok, 'A1', 'target_os_accepted:wrapper', 'accept_target_os(attrs, &self.parse_context.target_os)', f"target_os_accepted is `{vt.show(w['tail'])[:100]}` — must be accept_target_os(attrs, &self.parse_context.target_os) without negation", {'file': w['file'], 'line': w['line']})
+    ws = [g for g in ctx.fns(file='visitors.rs') if g['name'].split('::')[-1] == 'target_os_accepted']
+    for w in ws[:1]:
+        t = vt.strip(w['tail'])
+        ok = isinstance(t, dict) and t.get('f') == 'accept_target_os' and vt.show(vt.strip(t['args'][0])) == w['params'][1]['name'] and vt.show(vt.strip(t['args'][1])) == 'self.parse_context.target_os'
+        rep.check(ok, 'A1', 'target_os_accepted:wrapper', 'accept_target_os(attrs, &self.parse_context.target_os)', f"target_os_accepted is `{vt.show(w['tail'])[:100]}` — must be accept_target_os(attrs, &self.parse_context.target_os) without negation", {'file': w['file'], 'line': w['line']})
     # levels: file + 4 item kinds use the wrapper with the node's attrs (polarity is C03 S1); members via is_skipped
     levels = {'visit_file': 'file', 'visit_item_struct': 'struct', 'visit_item_enum': 'enum', 'visit_item_type': 'type alias', 'visit_item_const': 'const'}
     for fn, what in levels.items():
@@ -59,14 +60,17 @@ def a1(ctx, rep):
             continue
         f = cands[0]
         item = f['params'][1]['name']
-        fv = ctx.x(f)   # inlined view: the test may sit in a local helper shared by the four item visitors
-        calls = [c for c in fv['calls'] if c.get('f') in ('target_os_accepted', 'accept_target_os') and c.get('args') and vt.show(vt.strip(c['args'][0])) == f'{item}.attrs']
+        from .. import inline as _inl
+        helpers = tuple(g['name'].split('::')[-1] for g in ctx.fns(file='visitors.rs') if (g.get('self_ty') or '').startswith('TypeShareVisitor') and not g.get('trait') and g['name'].split('::')[-1] != 'target_os_accepted')
+        fv = _inl.view(ctx, f, depth=4, force=helpers)   # the test may sit in a local helper shared by the item visitors
+        calls = [c for c in fv['calls'] if c.get('f') in ('target_os_accepted', 'accept_target_os') and c.get('args') and vt.show(vt.strip(c['args'][0])) == f'{item}.attrs'
+                 and (c.get('f') == 'target_os_accepted' or 'parse_context.target_os' in vt.show(c['args'][1]).replace(' ', ''))]
         rep.check(bool(calls), 'A1', f'level:{what}', f'target_os_accepted(&{item}.attrs)', f'{fn} does not consult the target-OS predicate with the {what}\'s own attributes', {'file': f['file'], 'line': f['line']})
         if fn != 'visit_file':
             parser = {'visit_item_struct': 'parse_struct', 'visit_item_enum': 'parse_enum'}.get(fn)
             if parser:
-                pc = [c for c in f['calls'] if c.get('f') == parser]
-                ok = bool(pc) and vt.show(vt.strip(pc[0]['args'][1])) == 'self.parse_context.target_os'
+                pc = [c for c in fv['calls'] if c.get('f') == parser]
+                ok = bool(pc) and vt.show(vt.strip(pc[0]['args'][1])).replace(' ', '') in ('self.parse_context.target_os', 'target_os:=self.parse_context.target_os')
                 rep.check(ok, 'A1', f'target-list:{parser}', 'the run\'s target list is handed down', f"{fn} passes `{vt.show(pc[0]['args'][1])[:50] if pc else '?'}` as target list to {parser}, not self.parse_context.target_os", {'file': f['file'], 'line': f['line']})
     pe = ctx.fn('parse_enum', file='parser.rs')
     pv = [c for c in pe['calls'] if c.get('f') == 'parse_enum_variant']
